@@ -25,6 +25,27 @@ fn build(its: &[Src]) -> Vec<Box<dyn Iterator<Item = DltMessage>>> {
         .collect()
 }
 
+/// an outer iterator of sources that reports a given (truthful but inexact) size hint
+struct Hinted<I> {
+    inner: I,
+    lo: usize,
+    hi: Option<usize>,
+}
+impl<I: Iterator> Iterator for Hinted<I> {
+    type Item = I::Item;
+    fn next(&mut self) -> Option<I::Item> {
+        let r = self.inner.next();
+        if r.is_some() {
+            self.lo = self.lo.saturating_sub(1);
+            self.hi = self.hi.map(|h| h.saturating_sub(1));
+        }
+        r
+    }
+    fn size_hint(&self) -> (usize, Option<usize>) {
+        (self.lo, self.hi)
+    }
+}
+
 fn run_impl(variant: u64, start: u32, its: &[Src]) -> Result<Vec<(u32, u32, u32, u64)>, String> {
     let its = its.to_vec();
     catch(move || {
@@ -33,7 +54,26 @@ fn run_impl(variant: u64, start: u32, its: &[Src]) -> Result<Vec<(u32, u32, u32,
             0 => Box::new(SortingMultiReaderIterator::new(start, b)),
             1 => SortingMultiReaderIterator::new_or_single_it(start, b),
             2 => Box::new(SequentialMultiIterator::new(start, b.into_iter())),
-            _ => SequentialMultiIterator::new_or_single_it(start, b.into_iter()),
+            3 => SequentialMultiIterator::new_or_single_it(start, b.into_iter()),
+            // outer iterators whose size hints are truthful but not exact (what `files.iter().filter_map(open)`,
+            // `.peekable()` after a peek, `once(..).chain(..)` report)
+            4 => {
+                let n = b.len();
+                let o = b.into_iter().filter(|_| true);
+                assert_eq!(o.size_hint(), (0, Some(n)));
+                SequentialMultiIterator::new_or_single_it(start, o)
+            }
+            5 => {
+                let n = b.len();
+                let mut o = b.into_iter().filter(|_| true).peekable();
+                let _ = o.peek();
+                assert_eq!(o.size_hint(), if n == 0 { (0, Some(0)) } else { (1, Some(n)) });
+                SequentialMultiIterator::new_or_single_it(start, o)
+            }
+            _ => {
+                let n = b.len();
+                SequentialMultiIterator::new_or_single_it(start, Hinted { inner: b.into_iter(), lo: n.min(1), hi: None })
+            }
         };
         it.map(|m| (m.index, m.lifecycle, m.timestamp_dms, m.reception_time_us)).collect()
     })
@@ -69,7 +109,8 @@ fn oracle(variant: u64, start: u32, its: &[Src], r: &Result<Vec<(u32, u32, u32, 
             }
         }
     }
-    let single_exception = (variant == 1 || variant == 3) && its.len() == 1;
+    // the documented exception: one source AND (for the chain) a size hint of exactly (1, Some(1)) -- variant 5 with one source
+    let single_exception = (variant == 1 || variant == 3 || variant == 5) && its.len() == 1;
     if single_exception {
         // documented exception: the lone source is passed through with its own numbering
         for m in out.iter() {
@@ -101,7 +142,7 @@ fn oracle(variant: u64, start: u32, its: &[Src], r: &Result<Vec<(u32, u32, u32, 
 }
 
 fn gen_case(rng: &mut Rng, big: bool) -> (u64, u32, Vec<Src>) {
-    let variant = rng.below(4);
+    let variant = rng.below(7);
     let nsrc = if rng.chance(1, 6) { 1 } else { rng.size(if big { 10 } else { 6 }) };
     let mode = rng.below(4); // 0 equal, 1 increasing, 2 unordered, 3 few distinct values
     let base = rng.range(0, 1_000_000);
@@ -191,6 +232,11 @@ fn main() {
     record(&mut sink, 1, 7, vec![vec![(5, 3), (4, 9)]]);
     record(&mut sink, 3, 7, vec![vec![(5, 3), (4, 9)]]);
     record(&mut sink, 2, 0, vec![vec![], vec![], vec![(1, 0)], vec![], vec![(0, 0)], vec![]]);
+    for v in 4..7 {
+        record(&mut sink, v, 7, vec![vec![(5, 3), (4, 9)]]);
+        record(&mut sink, v, 3, vec![vec![(5, 3), (4, 9)], vec![(1, 0), (2, 1)], vec![], vec![(9, 7)]]);
+        record(&mut sink, v, 3, vec![]);
+    }
     record(&mut sink, 0, u32::MAX - 1, vec![vec![(1, 0)], vec![(1, 0)], vec![(2, 0)]]);
     let n = a.count.unwrap_or(if a.tier == "quick" { 1000 } else { 20000 });
     let mut rng = Rng::new(a.seed);
